@@ -25,6 +25,10 @@ def run(ctx, rep):
         TR.check_typed(fx, rep, "C08.1", impl)
     TR.check_display_templates(fx, rep, "C08.4")
     TR.check_format_helpers(fx, rep, "C08.4")
+    TR.check_element_display(fx, rep, "C08.4")
+    import api_rules as AR
+    AR.check_throwable_trace_api(fx, rep, "C08.api")
+    AR.check_frame_api(fx, rep, "C08.api")
     n = R2.check_twins(fx, rep, "C08.5")
     rep.floor("C08.5", n, 6, "twin pairs")
     # control: and_then (drops) vs map+fallback (keeps) are different canonical forms
